@@ -26,19 +26,19 @@ GRP_SIZE = {"all": 25, "nw": 18, "q12": 12, "rest": 13, "q3": 3}
 def plan(tier):
   """(family, catalog selection) pairs: rows exported and replayed / model-checked."""
   if tier == "quick":
-    ex = [("single", "q12"), ("flags", "tcp"), ("flags", "arpreq"), ("wvals", "other"),
+    ex = [("single", "q12"), ("flags", "tcp"), ("wvals", "other"),
           ("prefix", "varp"), ("garble", "udp"), ("line64", "icmp")]
     mc = [("single", "q3")]
   else:
-    q13 = ["tcp", "udp", "icmp", "frag2", "vtcp", "arpreq", "arphi", "other", "llc", "snapip", "vsnap", "vllc", "qinq"]
-    ex = [("flags", s) for s in SHAPES] + [("wvals", s) for s in q13]
-    ex += [("flagsP", s) for s in ("tcp", "icmp", "frag1", "v0udp", "arprep", "varp", "snapip", "vsnap")]
-    ex += [("wvalsW", s) for s in ("tcp", "arpreq", "other", "vsnap")]
+    ex = [("flags", s) for s in SHAPES]
+    ex += [("wvals", s) for s in ("tcp", "icmp", "vtcp", "arpreq", "other", "llc", "snapip", "vsnap")]
+    ex += [("flagsP", s) for s in ("tcp", "frag1", "v0udp", "varp", "vsnap")]
+    ex += [("wvalsW", s) for s in ("tcp", "other")]
     ex += [("prefix", "nw"), ("garble", "nw"), ("line64", "nw"), ("single", "all"),
-           ("prefix", "other"), ("line64", "llc"), ("full64", "tcp"), ("full64", "arpreq")]
+           ("prefix", "other"), ("line64", "llc"), ("full64", "tcp")]
     mc = [("single", "all")]
-    mc += [("flags", s) for s in ("tcp", "arpreq", "vsnap", "other", "icmp", "frag1")]
-    mc += [("wvals", "tcp"), ("wvals", "other"), ("prefix", "udp"), ("garble", "varp"), ("line64", "tcp")]
+    mc += [("flags", s) for s in ("tcp", "arpreq", "vsnap", "other")]
+    mc += [("wvals", "other"), ("prefix", "udp"), ("garble", "varp"), ("line64", "tcp")]
   return ex, mc
 
 
@@ -159,6 +159,7 @@ def run(ctx):
   # ---- 3. spec -> code
   tot = dict(ok=0, diverted=0, mismatch=0)
   nrows = 0
+  nlook = 0
   neg = None
   for n, (job, r) in enumerate(exports):
     kind, fam, base, cfg, kw = job
@@ -179,12 +180,14 @@ def run(ctx):
     for k in tot:
       tot[k] += st[k]
     nrows += len(behs)
+    nlook += sum(len(st["exp"]["outs"]) if st["a"] == "ProbeAll" else 1
+                 for b in behs for st in b if st["a"] != "Install")
     ctx.notes.setdefault("replay", {})[what] = dict(behaviours=len(behs), frames=len(frames), **st)
     if neg is None and core.replay.last_ok and cfg == "EX_rows.cfg":
       neg = (corrupt(behs[core.replay.last_ok[0]]), params)
     r.prints = None
     r.stdout = None
-  ctx.notes["replay_total"] = dict(behaviours=nrows, **tot)
+  ctx.notes["replay_total"] = dict(behaviours=nrows, lookups_compared=nlook, **tot)
   timing["replay_phase_s"] = round(time.time() - t0, 1)
   t0 = time.time()
 
@@ -198,7 +201,7 @@ def run(ctx):
     ctx.notes["replay_negative_control_rejected"] = True
 
   # ---- 4. code -> spec: random flow-mods / frames on the real switch, TLC decides
-  ntr = 160 if quick else 2000
+  ntr = 160 if quick else 1500
   traces = core.run_driver("props.C03:drive", [(ctx.seed * 1000003 + i, 40) for i in range(ntr)])
   bad = None
   for t in traces:                      # negative control: flip one lookup answer
@@ -216,18 +219,12 @@ def run(ctx):
   ctx.add_model("TraceLookup (validation of %d implementation traces)" % ntr, r)
   if len(traces) not in [t for t, _ in rej]:
     raise tlc.TLCError("negative control (hit reported as miss) was accepted by the trace spec")
-  from harness import adapters_c03 as ad
   for t, matched in rej:
     if t == len(traces):
       continue
     ev = traces[t][matched]
-    sig = dict(action=ev["a"], via="trace")
-    if ev["a"] == "Packet":
-      sig["frame"] = ad.frame_class(ev["args"]["x"])
-      sig["kind"] = ("anomaly" if not ev["wf"] else "false_miss" if ev["obs"]["out"] == 0 else "false_hit_or_wrong_entry")
-      if not ev["wf"]:
-        sig["detail"] = ev.get("note", "")
-    ctx.report(sig, dict(trace=traces[t], failing_step=matched, note="TLC rejected the trace at this event"))
+    ctx.report(trace_signature(ev), dict(trace=traces[t], failing_step=matched, seed=ctx.seed * 1000003 + t,
+                                         note="TLC rejected the trace at this event"))
   ctx.traces += len(traces)
   for t in traces[:3000]:
     ctx.case(core.fp([[e["a"], e["args"]] for e in t]))
@@ -238,14 +235,11 @@ def run(ctx):
   ctx.exhaustive = True
 
 
-def drive(arg):
-  """Random flow-mods and frames on the real switch; returns the recorded trace."""
-  seed, n = arg
-  from harness.adapters_c03 import Adapter
+def gen_inputs(seed, n):
+  """Seeded random flow-mods and frames (inputs only)."""
   from harness import c03_gen as g
   rnd = random.Random(seed)
-  ad = Adapter(frames={}, pool=seed % 4, reserved=(0xffc00000 if seed % 2 else 0))
-  tr = []
+  ins = []
   pool = [g.frame(rnd) for _ in range(3)]
   # distinct priorities: replacing an entry with the same priority and match is C04's subject
   prios = sorted(set([0, 1, 2, 0x7fff, 0x8000, 0xfffe, 0xffff] + [rnd.randrange(65536) for _ in range(4)]))
@@ -255,7 +249,7 @@ def drive(arg):
     if nk < 8 and (nk == 0 or rnd.random() < 0.2):
       nk += 1
       x = rnd.choice(pool)
-      a, args = "Install", dict(k=nk, m=g.match_for(rnd, x), prio=prios.pop())
+      ins.append(("Install", dict(k=nk, m=g.match_for(rnd, x), prio=prios.pop())))
     else:
       k = rnd.random()
       if k < 0.35:
@@ -265,11 +259,22 @@ def drive(arg):
       else:
         x = g.frame(rnd)
         pool[rnd.randrange(len(pool))] = x
-      a, args = "Packet", dict(x=x)
+      ins.append(("Packet", dict(x=x)))
+  return ins
+
+
+def execute(ins, seed):
+  """Run the inputs on a fresh real switch; returns the recorded trace (fixed schema)."""
+  from harness.adapters_c03 import Adapter
+  ad = Adapter(frames={}, pool=seed % 4, reserved=(0xffc00000 if seed % 2 else 0))
+  tr = []
+  for a, args in ins:
     note = ""
     try:
       obs = ad.step(a, args)
       wf = True
+    except core.Machinery:
+      raise
     except Exception as e:
       obs, wf, note = {}, False, "exception:" + type(e).__name__
     if a == "Install":
@@ -284,3 +289,33 @@ def drive(arg):
         obs = dict(out=-1)
     tr.append(dict(a=a, args=args, obs=obs, wf=wf, note=note))
   return tr
+
+
+def drive(arg):
+  """Random flow-mods and frames on the real switch; returns the recorded trace."""
+  seed, n = arg
+  return execute(gen_inputs(seed, n), seed)
+
+
+def trace_signature(ev):
+  from harness import adapters_c03 as ad
+  sig = dict(action=ev["a"], via="trace")
+  if ev["a"] == "Packet":
+    sig["frame"] = ad.frame_class(ev["args"]["x"])
+    sig["kind"] = ("anomaly" if not ev["wf"] else "false_miss" if ev["obs"]["out"] == 0 else "false_hit_or_wrong_entry")
+    if not ev["wf"]:
+      sig["detail"] = ev.get("note", "")
+  return sig
+
+
+def replay_one(ctx, rep):
+  """./check C03 --replay FILE: behaviours are replayed as recorded; for a rejected trace the
+  recorded inputs are run again on the current tree and TLC decides again."""
+  if "behaviour" in rep:
+    core.replay(ctx, rep["adapter"], [rep["behaviour"]], params=rep.get("params"), procs=1)
+    return
+  ins = [(e["a"], e["args"]) for e in rep["trace"]]
+  tr = execute(ins, rep.get("seed", 0))
+  r, rej = tracecheck.validate(SPEC, "TraceLookup", "Trace.cfg", [tr], tag="C03")
+  for t, matched in rej:
+    ctx.report(trace_signature(tr[matched]), dict(trace=tr, failing_step=matched, seed=rep.get("seed", 0)))
